@@ -571,7 +571,7 @@ def judge_l2(case, dbE=None):
     if py_raised is None:
         if case['kind'] == 'eq':
             if case['part'] == 'cond':
-                vals = [v] + [d for d in decoys_for(v) if in_domain(d)]
+                vals = ([v] + [d for d in decoys_for(v) if in_domain(d)]) if value_column(v) else [0, 5]
                 seen = []
                 for d in vals:
                     if not any(typed_equal(d, s) for s in seen):
@@ -667,26 +667,36 @@ def judge_l2(case, dbE=None):
         for n in d_ext:
             feats |= features(n)
         res['features'] = sorted(feats)
-        if py_raised is None:
-            lam = ast.Expression(ast.Lambda(ast.arguments(posonlyargs=[], args=[ast.arg(QUERY_VAR)], kwonlyargs=[],
-                                                           kw_defaults=[], defaults=[]), copy.deepcopy(dbody)))
-            ast.fix_missing_locations(lam)
-            try:
-                dfunc = eval(compile(lam, '<c04 decompiled>', 'eval'), scope.merged())
-                if case['part'] == 'cond':
-                    d_expected = sorted(r.id for r in stored if dfunc(r))
-                    same = d_expected == expected
-                else:
-                    d_expected = sorted((tuple(dfunc(r)) for r in stored), key=lambda t: t[0])
-                    same = len(d_expected) == len(expected) and all(typed_equal(a, b) for a, b in zip(d_expected, expected))
-            except RecursionError:
-                raise
-            except Exception as e:
-                same = False
-            if not same:
-                res.update(status='inconclusive', message='decompiled tree is not equivalent to the source (C03 matter)')
-                res['classes'].append('decompiler_mismatch')
-                return res
+        # the decompiled body, compiled directly, must behave like the source on the stored rows (or on a probe row when
+        # Python raises for an external part): otherwise the decompiler changed the expression, which is C03's matter
+        lam = ast.Expression(ast.Lambda(ast.arguments(posonlyargs=[], args=[ast.arg(QUERY_VAR)], kwonlyargs=[],
+                                                       kw_defaults=[], defaults=[]), copy.deepcopy(dbody)))
+        ast.fix_missing_locations(lam)
+        probe = stored or [Row(id=1, **DEFAULT_ROW), Row(id=2, **dict(DEFAULT_ROW, i=5, j=-1, s=''))]
+
+        def row_outcomes(func):
+            out = []
+            for r in probe:
+                try:
+                    v = func(r)
+                    out.append(('value', bool(v) if case['part'] == 'cond' else tuple(v)))
+                except RecursionError:
+                    raise
+                except Exception as e:
+                    out.append(('raise', type(e).__name__))
+            return out
+        try:
+            dfunc = eval(compile(lam, '<c04 decompiled>', 'eval'), scope.merged())
+            o_src, o_dec = row_outcomes(pyfunc), row_outcomes(dfunc)
+            same = len(o_src) == len(o_dec) and all(a[0] == b[0] and typed_equal(a[1], b[1]) for a, b in zip(o_src, o_dec))
+        except RecursionError:
+            raise
+        except Exception as e:
+            same = False
+        if not same:
+            res.update(status='inconclusive', message='decompiled tree is not equivalent to the source (C03 matter)')
+            res['classes'].append('decompiler_mismatch')
+            return res
         regen_trees = [copy.deepcopy(n) for n in d_ext]
     else:
         regen_trees = [copy.deepcopy(n) for n in ext_nodes]
